@@ -294,17 +294,36 @@ Print Assumptions c04_operators_no_panic.
 (* a product whose decimal exponent would leave +-100000 is an error value
    (`@(0.1 ^ 100000 * 0.1 ^ 100000)`; before the repair `@(0.1 ^ 2000000000 * 0.1 ^ 2000000000)` panicked) *)
 Theorem c04_multiply_out_of_range_is_error : forall frac_pow x y n1 n2, to_number x = Ok n1 -> to_number y = Ok n2 ->
-  (dexp n1 + dexp n2 < - max_number_exponent \/ max_number_exponent < dexp n1 + dexp n2)%Z ->
+  (dexp (dec_canonical n1) + dexp (dec_canonical n2) < - max_number_exponent
+   \/ max_number_exponent < dexp (dec_canonical n1) + dexp (dec_canonical n2))%Z ->
   eval_binop frac_pow OMul x y = Ret VErr.
 Proof. exact multiply_out_of_range. Qed.
 Print Assumptions c04_multiply_out_of_range_is_error.
 
 (* a power whose decimal exponent would leave +-100000 is an error value (`@(0.001 ^ 999999999)` panicked) *)
 Theorem c04_power_out_of_range_is_error : forall frac_pow x y n1 n2, to_number x = Ok n1 -> to_number y = Ok n2 ->
-  (dexp n1 * dec_trunc n2 < - max_number_exponent \/ max_number_exponent < dexp n1 * dec_trunc n2)%Z ->
+  (dexp (dec_canonical n1) * dec_trunc (dec_canonical n2) < - max_number_exponent
+   \/ max_number_exponent < dexp (dec_canonical n1) * dec_trunc (dec_canonical n2))%Z ->
   eval_binop frac_pow OPow x y = Ret VErr.
 Proof. exact pow_out_of_range. Qed.
 Print Assumptions c04_power_out_of_range_is_error.
+
+(* the limits and results of * and ^ depend on the VALUE of a number, not on how it was written: numerically equal
+   decimals (0.10 and 0.1, 1E3 and 1000) have the same canonical form, on which both operators work
+   (before the repair `@(0.10 ^ 60000)` was an error and `@(0.1 ^ 60000)` a number) *)
+Theorem c04_canonical_form_respects_numeric_equality : forall a b, dec_eq a b -> dec_canonical a = dec_canonical b.
+Proof. exact canonical_respects_equality. Qed.
+Print Assumptions c04_canonical_form_respects_numeric_equality.
+
+Theorem c04_canonical_form_is_equal_number : forall d, is_canonical (dec_canonical d) /\ dec_eq (dec_canonical d) d.
+Proof. exact dec_canonical_spec. Qed.
+Print Assumptions c04_canonical_form_is_equal_number.
+
+Theorem c04_multiply_power_respect_numeric_equality : forall frac_pow op a a' b b',
+  (op = OMul \/ op = OPow) -> dec_eq a a' -> dec_eq b b' ->
+  eval_binop frac_pow op (VNum a) (VNum b) = eval_binop frac_pow op (VNum a') (VNum b').
+Proof. exact mul_pow_respect_equality. Qed.
+Print Assumptions c04_multiply_power_respect_numeric_equality.
 
 (* mod, mean, percent and / : NO panic of any class when the decimal exponents of the numeric arguments are
    within +-10^9 (the library's exponent-overflow panic needs two exponents about 2^31 apart:
@@ -365,7 +384,7 @@ Print Assumptions c04_rounding_places_guarded.
 
 Theorem c04_operator_guards_in_source :
   max_number_exponent_src = max_number_exponent /\ forallb snd operator_guards = true
-  /\ List.length operator_guards = 6%nat.
+  /\ List.length operator_guards = 8%nat.
 Proof. exact operator_guards_in_source. Qed.
 Print Assumptions c04_operator_guards_in_source.
 
